@@ -91,7 +91,7 @@ def run_scenario(S, scn):
                 recs.append({"groups": [[S.tree_json(c, fidx) for c in g] for g in r["groups"]],
                              "answers": [a if a == "unsat" else {"sat": [[fidx[kk], v] for kk, v in a["sat"].items() if kk in fidx]}
                                          for a in r["answers"]]})
-        fields = [dict(f, val=before[i], rand=(i in call["passed"]), declRand=f["rand"]) for i, f in enumerate(scn["fields"])]
+        fields = [dict(f, val=before[i], rand=(i in call["passed"]), declRand=bool(f["rand"] and not f.get("attr"))) for i, f in enumerate(scn["fields"])]
         req = {"op": "z.call", "fields": fields, "tops": call["inline"] or [], "rec": recs, "enumLimit": 13,
                "implFinal": after if outcome == "ok" else None, "draws": [list(d) for d in draws], "implBounds": None, "order": [], "allF": list(call["passed"])}
         out.append({"call": call, "before": before, "after": after, "outcome": outcome, "exc": exc, "obs": obs, "uncon": uncon,
